@@ -204,11 +204,26 @@ def corrupt(rng, content, how=None):
     return bytes(b)
 
 
-def gen_world(rng, ntorrents=None, allow_shared=True, empties=False, export_heavy=False):
+def gen_padded_torrent(rng, idx):
+    """A multi-file torrent in which padding files sit in the MIDDLE of pieces (alignment smaller than the piece
+    length - legal, unusual): real, pad, real [, pad, real], with a piece length that spans them."""
+    files = []
+    k = 0
+    for j in range(rng.choice([2, 3, 3])):
+        if j:
+            files.append(TFile([b".pad", b"%d" % rng.randint(0, 999)], bytes(rng.randint(1, 4)), pad=True))
+            while any(tuple(f.path) == tuple(files[-1].path) for f in files[:-1]):
+                files[-1].path[1] += b"0"
+        k += 1
+        files.append(TFile([rng.choice(DIRS)][:rng.choice([0, 1])] + [b"p%d" % k + rng.choice(NAMES)], rand_content(rng, rng.randint(1, 6))))
+    return TorrentSpec(rng.choice(NAMES) + b"%d" % idx, rng.choice([4, 6, 8, 16]), files, False)
+
+
+def gen_world(rng, ntorrents=None, allow_shared=True, empties=False, export_heavy=False, pad_heavy=False):
     w = World()
     nt = ntorrents or rng.choice([1, 1, 2, 2, 3])
     for i in range(nt):
-        t = gen_torrent(rng, i, empties=empties)
+        t = gen_padded_torrent(rng, i) if (pad_heavy and i == 0) else gen_torrent(rng, i, empties=empties)
         if empties and t.single:
             t = gen_torrent(rng, i, empties=empties)
         if any(t.info_hash == u.info_hash for u in w.torrents):
